@@ -34,6 +34,15 @@ def keyOf (sid : Bytes) (tab : List (String × Nat)) (p : String) : Nat :=
   | some k => k
   | none => electionKey sid p
 
+/-- `<kind><conn>@<claimed>[:tag]` → the event with the origin claim taken out, and whether there was one -/
+def stripClaim (s : String) : String × Bool :=
+  match s.splitOn "@" with
+  | [a, b] =>
+    match b.splitOn ":" with
+    | [_, tag] => (a ++ ":" ++ tag, true)
+    | _ => (a, true)
+  | _ => (s, false)
+
 def parseEv (s : String) : Option (Ev String) :=
   match s.toList with
   | 'i' :: r => (peerOf (String.ofList r)).map Ev.init
@@ -58,7 +67,7 @@ def parseEv2 (s : String) : Option (Sum (Ev String) String) :=
 /-- the first attempt's failure in `retry2`: `silent` (coordinator time-out naming the static coordinator `c`), or the
     error the first Run returned: t[<culprit>+…], c<peer>, m — as it reaches handleError through two pools -/
 def firstErr (first : String) (c : String) : Option (Sygma.C11.Err String) :=
-  if first = "silent" then some (.wrap (.coord (some c))) else
+  if first.startsWith "silent" then some (.wrap (.coord (some c))) else
   match first.toList with
   | ['m'] => some (.wrap (.wrap .comm))
   | 'c' :: r => (peerOf (String.ofList r)).map fun p => .wrap (.wrap (.coord (some p)))
@@ -90,7 +99,7 @@ def parseRuns (s : String) : Option (List Nat) :=
 
 def sizeTag (n : Nat) : String := toString (min n 7)
 
-def handle (op : String) (args : List String) (impl : String) : Option Verdict :=
+def handleCore (op : String) (args : List String) (impl : String) : Option Verdict :=
   match op, args with
   | "keccak", [h] => some <| Id.run do
     let some b := fromHex h | return bad
@@ -181,7 +190,7 @@ def handle (op : String) (args : List String) (impl : String) : Option Verdict :
     match staticCoordinator key ps with
     | none => return ⟨"selfcoord", impl == "selfcoord", "retry2:selfcoord"⟩
     | some c =>
-      if first = "silent" && c = self then return ⟨"selfcoord", impl == "selfcoord", "retry2:selfcoord"⟩
+      if first.startsWith "silent" && c = self then return ⟨"selfcoord", impl == "selfcoord", "retry2:selfcoord"⟩
       -- the failure of the first attempt as handleError receives it, and whom it excludes (model of C11)
       let some e := firstErr first c | return bad
       let .retry ex := Sygma.C11.afterFailure true e | return bad
@@ -204,7 +213,7 @@ def handle (op : String) (args : List String) (impl : String) : Option Verdict :
               | some out => !wf || decide (AnnouncedOk cfg readies out)
               | none => false
           | _, _ => false
-        return ⟨m, ok, s!"retry2:{if first = "silent" then "silent" else "failed-run"}:coordinates:{tag}:wf={wf}:fails={fails}"⟩
+        return ⟨m, ok, s!"retry2:{if first.startsWith "silent" then "silent" else "failed-run"}:coordinates:{tag}:wf={wf}:fails={fails}"⟩
       else
         let tr := evs.filterMap fun e => match e with | .inl e => some e | _ => none
         let st := runWait2 (some elected) none tr
@@ -235,5 +244,16 @@ def handle (op : String) (args : List String) (impl : String) : Option Verdict :
       let forged := evs.any (fun e => e.src != c)
       return ⟨showWait s, ok, s!"wait:res={showRes s.res}:ran={!s.runs.isEmpty}:readies={sizeTag s.readies.length}:forged={forged}"⟩
   | _, _ => none
+
+def handle (op : String) (args : List String) (impl : String) : Option Verdict :=
+  match op, args with
+  | "net", [self, sid, ps, evs] =>
+    -- envelopes through the real receive path: the sender is the peer the connection is authenticated as; an origin the
+    -- envelope claims is ignored (`attributeSender`), so the model is `wait` on the events with the claims taken out
+    let stripped := (items evs ";").map stripClaim
+    let forgedClaims := stripped.any (·.2)
+    (handleCore "wait" [self, sid, ps, joinOr (stripped.map (·.1)) ";"] impl).map fun v =>
+      { v with tag := "net:" ++ v.tag ++ s!":claims={forgedClaims}" }
+  | _, _ => handleCore op args impl
 
 end Sygma.Drv.C07
